@@ -62,8 +62,9 @@ def transition_witnesses(ctx, cap):
     name = "C09_witness"
     with open(os.path.join(rundir, name + ".v"), "w") as f:
         f.write("From Coq Require Import String List NArith.\nFrom PT Require Import Attr AttrReach AttrWitness AttrWitness.\n"
-                + "".join("Eval vm_compute in (witness_strings09 %d%%N).\n" % g for g in range(8)))
-    rc, out = vlib.sh("timeout 1800 coqc -Q . PT -w -all Run/%s.v" % name, cwd=vlib.COQ, timeout=1900)
+                + "".join('Eval vm_compute in (String.concat "|" (witness_strings09 %d%%N)).\n' % g for g in range(8)))
+    rc, out = vlib.sh("ulimit -s unlimited 2>/dev/null; timeout 1800 coqc -Q . PT -w -all Run/%s.v" % name,
+                      cwd=vlib.COQ, timeout=1900)
     for fn in os.listdir(rundir):
         if fn.startswith(name) and not fn.endswith(".v"):
             os.remove(os.path.join(rundir, fn))
@@ -71,8 +72,10 @@ def transition_witnesses(ctx, cap):
         ctx.note("transition witnesses did not evaluate: " + out[-300:])
         return None, 0, 0
     hs = []
-    for m in re.finditer(r'"((?:[^"]|"")*)"', out):
-        h = [e.split(",") for e in m.group(1).replace("\n", "").split(";") if e]
+    for hs_txt in [x for m in re.finditer(r'"((?:[^"]|"")*)"', out) for x in m.group(1).replace("\n", "").split("|")]:
+        h = [e.split(",") for e in hs_txt.split(";") if e]
+        if not h:
+            continue
         # table[0] stands for itself only in the covalent_radius group (Model/Attr.v)
         if any(e[0] in ("read", "has", "set", "mut") and e[2] == "En" and not e[3].startswith("covalent_radius") for e in h):
             continue
